@@ -267,7 +267,27 @@ def make_driver(it, routine, model, modname):
     for name, b, specs in allvars:
         is_dummy = specs is tspec
         if b.tname == "struct":
-            raise Unsupported("struct in driver")
+            if not is_dummy or b.rank:
+                raise Unsupported("struct in driver")
+            decls.append(f"  type({b.struct}) :: v_{name}")
+            for ck, (ctn, crank) in it.meta.items():
+                if not ck.startswith(b.key + "%") or ctn == "struct" or ck not in it.inputs:
+                    continue
+                comp = ck[len(b.key) + 1:]
+                if "%" in comp:
+                    raise Unsupported("nested struct in driver")
+                if crank == 0:
+                    sets.append(f"  v_{name}%{comp} = {_flit(mval(model, it.inputs[ck]), ctn)}")
+                    prints.append((f"v_{name}%{comp}", ctn, None))
+                else:
+                    lit = it.comp_literal_bounds.get(ck)
+                    if lit is None or crank != 1:
+                        raise Unsupported("struct array component without literal bounds in driver")
+                    for i in range(lit[0][0], lit[0][1] + 1):
+                        v = mval(model, select(it.inputs[ck], [z3.IntVal(i)]))
+                        sets.append(f"  v_{name}%{comp}({i}) = {_flit(v, ctn)}")
+                    prints.append((f"v_{name}%{comp}", ctn, lit))
+            continue
         ts = specs.get(name, {"integer": "integer", "real": "real", "logical": "logical"}[b.tname])
         dname = f"v_{name}" if is_dummy else name
         if b.rank == 0:
